@@ -828,7 +828,7 @@ class Array(Tuple):
             ctx.parameterizer is None
             or not ctx.parameterizer.should_parameterize(self.original_value)
             # an array holding terms cannot be one parameter: its elements are rendered (and parameterised) one by one
-            or any(isinstance(value, Term) for value in self.original_value)
+            or any(isinstance(value, Node) for value in self.original_value)
         ):
             operand_ctx = ctx.copy(with_alias=False)
             values = ",".join(term.get_sql(operand_ctx) for term in self.values)
